@@ -1261,6 +1261,7 @@ func runC03(c *fw.Check) {
 	c.Extra["constructors_in_source_not_exercised_by_part_A"] = missing
 	if fw.HaveLLVM() {
 		c03exec(c)
+		c08ehAPI(c, "C03") // exception-handling funclets with every subset of values left unnamed
 		c03apiConstants(c)
 		c03orders(c)
 	}
